@@ -363,6 +363,24 @@ def streams(rng, tier):
         elif got != exp:
             return "violation"
         return "ok" if impl == model else "corr"
+    # an f32 read behind serde's Content buffer (a flattened struct): the bridge hands the item over at its own width, bit for bit
+    from verifkit.props import serde_types as _S
+    ftree = _S.parse_type(dict(_S.SERDE_ONLY)["FlatDeep"])
+    fd = _S.spec_enc(_S.gen_val(rng, ftree))
+    k = fd.find(b"\x61f\xfa")
+    cops = []
+    if k >= 0:
+        for b in [0x7f800001, 0xff800001, 0x7fc00000, 0xffc00000, 0x7fffffff, 0x7f801000, 0x7fa00000, 0x00000001, 0x80000000, 0x3f800001, 0x7f7fffff, 0x7f800000] + \
+                 [rng.getrandbits(32) | 0x7f800000 for _ in range(40)] + [rng.getrandbits(32) for _ in range(40)]:
+            cops.append(f"de FlatDeep {(fd[:k + 2] + bytes([0xfa]) + b.to_bytes(4, 'big') + fd[k + 7:]).hex()} #f32={b:08x}")
+    def judge_content(op, impl, model, spec):
+        want = [x for x in op.split(" ") if x.startswith("#f32=")][0][5:]
+        if not impl.startswith("ok ") or f"f32:{want}" not in impl:
+            return "violation"
+        return "ok" if impl == model else "corr"
+    from verifkit.props import C17 as _C17
+    out.append(Stream("bridge-floats-buffered", "hserde", cops, model_ops=[_C17.model_op(o) for o in cops], judge=judge_content, nontrivial=lambda op, impl: impl.startswith("ok"),
+                      rule="de FlatDeep with the f32 field (read through serde's Content buffer) holding NaNs of every kind, signed zero, extremes: the identical bit pattern comes back"))
     out.append(Stream("bridge-floats", "hserde", bops, judge=judge_bridge, nontrivial=nontrivial,
                       rule="de f32|f64 through minicbor-serde on f9 / fa / fb items: bit-exact at the item's own width, exact widening, and a wider item is "
                            "always refused by the narrower deserializer (what serde's visitor would do with a narrowed value never happens)"))
